@@ -83,6 +83,8 @@ def _rand_table(rng, k, nondet, names, profile, twin):
             row[key] = alts
         if row or q == work[0] or rng.random() < 0.5:
             table[q] = row
+    if len(work) > 1 and rng.random() < 0.3:
+        table.pop(work[-1], None)       # an explicit reject state: reachable, not final, no row at all
     return dict(states=list(work) + list(fins), finals=list(fins), input_symbols=inp, tape_symbols="".join(tsyms),
                 blank=blank, initial=work[0], k=k, table=table, profile=profile)
 
